@@ -79,6 +79,7 @@ type Config struct {
 	ChainID    string
 	NKeys      int              // number of deterministic keys (named a1..aN)
 	Balances   map[int]int64    // key index -> genesis balance
+	BigBase    map[int]string   // key index -> decimal number added to the genesis balance and subtracted again by the projection (balances at the 2^64 boundary while the specification keeps small numbers)
 	Nodes      []NodeSpec
 	Apps       []AppSpec
 	DAOTokens  int64
@@ -192,6 +193,18 @@ func DefaultFeatures() map[string]int64 {
 }
 
 // BuildGenesis builds the genesis state for cfg.
+// bigBaseOf: the offset of account i (Config.BigBase), zero when it has none.
+func bigBaseOf(cfg Config, i int) sdk.BigInt {
+	if b, ok := cfg.BigBase[i]; ok {
+		v, ok := sdk.NewIntFromString(b)
+		if !ok {
+			panic("chainsim: bad BigBase " + b)
+		}
+		return v
+	}
+	return sdk.ZeroInt()
+}
+
 func BuildGenesis(cfg Config, keys []crypto.PrivateKey) app.GenesisState {
 	cdc := memCodec()
 	gen := module.NewBasicManager(apps.AppModuleBasic{}, auth.AppModuleBasic{}, gov.AppModuleBasic{},
@@ -261,7 +274,7 @@ func BuildGenesis(cfg Config, keys []crypto.PrivateKey) app.GenesisState {
 	for _, i := range idx {
 		au.Accounts = append(au.Accounts, &auth.BaseAccount{
 			Address: Addr(keys[i]), PubKey: keys[i].PublicKey(),
-			Coins: sdk.NewCoins(sdk.NewCoin(sdk.DefaultStakeDenom, sdk.NewInt(cfg.Balances[i]))),
+			Coins: sdk.NewCoins(sdk.NewCoin(sdk.DefaultStakeDenom, sdk.NewInt(cfg.Balances[i]).Add(bigBaseOf(cfg, i)))),
 		})
 	}
 	if cfg.AuthParams != nil {
